@@ -373,10 +373,22 @@ def cfgWar2Stop : Config := ⟨2, [some .value, some .value], [false, false], tr
 /-- when_all_range, 3 children: value, error, inline-done leaf; external stop. -/
 def cfgWar3Mix : Config := ⟨3, [some .value, some .error, none], [false, false, true], true, false⟩
 
+/-- smaller instances (reflection theorems in Props/C01_Atomic, Props/C04_Atomic; also scenarios) -/
+def cfgWa1Stop : Config := ⟨1, [some .value], [false], true, true⟩
+def cfgWa2Race : Config := ⟨2, [some .value, some .value], [false, false], false, true⟩
+def cfgWa2ValInlStop : Config := ⟨2, [some .value, none], [false, true], true, true⟩
+def cfgWa2ErrInlStop : Config := ⟨2, [some .error, none], [false, true], true, true⟩
+/-- 3 children: error and done race for doneOrError_, the third only completes when it is stopped. -/
+def cfgWa3FailInl : Config := ⟨3, [some .error, some .done, none], [false, false, true], false, true⟩
+/-- 3 children + stop thread: one value, two leaves that complete inside their stop callbacks. -/
+def cfgWa3StopInl : Config := ⟨3, [some .value, none, none], [false, true, true], true, true⟩
+
 def configs : List (String × Config) :=
   [("wa2_stop", cfgWa2Stop), ("wa2_err_stop", cfgWa2ErrStop), ("wa2_done_inl", cfgWa2DoneInl),
    ("wa2_err_inl", cfgWa2ErrInl),
    ("wa2_stop_inl", cfgWa2StopInl), ("wa3_fail", cfgWa3Fail), ("wa3_mix", cfgWa3Mix),
-   ("war2_stop", cfgWar2Stop), ("war3_mix", cfgWar3Mix)]
+   ("war2_stop", cfgWar2Stop), ("war3_mix", cfgWar3Mix),
+   ("wa1_stop", cfgWa1Stop), ("wa2_race", cfgWa2Race), ("wa2_valinl_stop", cfgWa2ValInlStop),
+   ("wa2_errinl_stop", cfgWa2ErrInlStop), ("wa3_fail_inl", cfgWa3FailInl), ("wa3_stop_inl", cfgWa3StopInl)]
 
 end Unifex.Proto.WhenAll
